@@ -721,7 +721,10 @@ pub fn random_op(rng: &mut Rng, paths: &[String], cwd: &str, uid: &mut u64) -> O
 }
 
 pub fn random_histories(ctx: &Ctx, rep: &mut Report, mode: Mode) {
-    let paths = namespace(&["a", "b", "c"], 3);
+    let plain = namespace(&["a", "b", "c"], 3);
+    // every second history uses a name with an extension next to the same name without it (a destination computed
+    // once from the full name and once from the stem only disagrees there)
+    let dotted = namespace(&["a", "a.x", "b"], 3);
     let mut rng = ctx.rng("histories");
     let n_hist = if ctx.thorough { 4000 } else { 48 } / ctx.shards.max(1) + 1;
     let mut uid = (ctx.shard as u64) << 40;
@@ -729,8 +732,9 @@ pub fn random_histories(ctx: &Ctx, rep: &mut Report, mode: Mode) {
     for h in 0..n_hist {
         let len = 200 + rng.below(if ctx.thorough { 1300 } else { 500 });
         let mut ls = LockStep::new(mode);
+        let paths = if h % 2 == 0 { &plain } else { &dotted };
         for _ in 0..len {
-            let op = random_op(&mut rng, &paths, &ls.model.t.cwd.clone(), &mut uid);
+            let op = random_op(&mut rng, paths, &ls.model.t.cwd.clone(), &mut uid);
             ls.apply(&op, rep);
             // keep witnesses short: restart the history once it has diverged or grown large
             if ls.history.len() > 60 && rng.chance(1, 40) {
